@@ -69,6 +69,9 @@ def directed_pairs():
     fams = [
         ("IKeyProvisioningService", [M(long_m + "ecdsa", P), ("error", "E_" + long_m.upper() + "ECDSA"), ("const", "uint32", "K_" + long_m + "ecdsa", "1"), M("close")],
          [M(long_m + "rsa", P[:1]), M(long_m + "ecdsa_v2"), ("error", "E_" + long_m.upper() + "RSA"), ("const", "uint32", "K_" + long_m + "rsa", "2")]),
+        # appended constants named like the op-code macros of old methods (and one that is not)
+        ("IKv", [M("put", P), M("get", P), M("erase", P[:1])],
+         [("const", "uint32", "OP_put", "2"), ("const", "uint32", "OP_get", "1"), ("const", "uint32", "OP_erase", "0"), ("const", "uint32", "OP_other", "7"), M("last_operation", P[1:])]),
         ("IStore", [M("get", P), M("get_value", P), M("put", P[:1]), ("error", "FULL"), ("error", "FULL_DISK")],
          [M("get_", P[:1]), M("ge"), M("get_value2", P), M("put_", P), M("Get", P[:1]), ("error", "FUL"), ("error", "FULL_"), ("error", "Full")]),
     ]
